@@ -501,3 +501,201 @@ Proof.
   - intros j Hj. rewrite forallb_forall in HF. specialize (HF j Hj). apply Nat.ltb_lt in HF.
     apply in_seq. lia.
 Qed.
+
+(** * (e) listing order of the summaries, storage of the arrays (wave 2)
+
+    The model reads numeric values only, so the storage dtype cannot matter by construction; what is
+    left to prove is that listing the summaries in another order (columns of X and entries of the
+    slope permuted alike -- Proofs/C17_AdjustMx.v shows the permuted slope IS the fit of the permuted
+    design) selects the same rows and returns the same adjusted values. *)
+
+Lemma is_perm_Permutation k perm : is_perm k perm = true -> Permutation perm (seq 0 k).
+Proof.
+  unfold is_perm. rewrite !andb_true_iff. intros [[HL HN] HF].
+  apply Nat.eqb_eq in HL. apply nodupb_sound in HN.
+  apply NoDup_Permutation_bis; auto.
+  - rewrite seq_length. lia.
+  - intros j Hj. rewrite forallb_forall in HF. specialize (HF j Hj). apply Nat.ltb_lt in HF.
+    apply in_seq. lia.
+Qed.
+
+Lemma is_perm_lt k perm j : is_perm k perm = true -> In j perm -> (j < k)%nat.
+Proof.
+  unfold is_perm. rewrite !andb_true_iff. intros [_ HF] Hj.
+  rewrite forallb_forall in HF. apply Nat.ltb_lt, HF, Hj.
+Qed.
+
+Lemma dot_index r : forall b, length b = length r ->
+  dot r b == qsum (map (fun i => nth i r 0 * nth i b 0) (seq 0 (length r))).
+Proof.
+  induction r as [|x r IH]; intros [|y b] H; simpl in H; try discriminate.
+  - reflexivity.
+  - cbn [length dot]. change (seq 0 (S (length r))) with (0%nat :: seq 1 (length r)).
+    rewrite <- seq_shift. cbn [map]. rewrite map_map, qsum_cons. cbn [nth].
+    rewrite (IH b) by lia. reflexivity.
+Qed.
+
+Lemma dot_map_index (f g : nat -> Q) idx :
+  dot (map f idx) (map g idx) == qsum (map (fun j => f j * g j) idx).
+Proof.
+  induction idx as [|j idx IH]; [reflexivity|].
+  cbn [map dot]. rewrite qsum_cons, IH. reflexivity.
+Qed.
+
+(** the dot product does not see a common re-ordering of its two arguments *)
+Theorem dot_permute perm row b : is_perm (length row) perm = true -> length b = length row ->
+  dot (permute perm row 0) (permute perm b 0) == dot row b.
+Proof.
+  intros HP HL. unfold permute. rewrite dot_map_index, (dot_index row b HL).
+  apply qsum_perm, Permutation_map, is_perm_Permutation, HP.
+Qed.
+
+Lemma forallb_perm {A} (f : A -> bool) l l' : Permutation l l' -> forallb f l = forallb f l'.
+Proof.
+  induction 1; simpl; auto; try congruence.
+  destruct (f x), (f y); reflexivity.
+Qed.
+
+Lemma forallb_map {A B} (f : B -> bool) (g : A -> B) l : forallb f (map g l) = forallb (fun x => f (g x)) l.
+Proof. induction l; simpl; congruence. Qed.
+
+Lemma forallb_nth_seq {A} (f : A -> bool) d l :
+  forallb (fun j => f (nth j l d)) (seq 0 (length l)) = forallb f l.
+Proof.
+  induction l as [|x l IH]; [reflexivity|].
+  cbn [length]. change (seq 0 (S (length l))) with (0%nat :: seq 1 (length l)).
+  rewrite <- seq_shift. cbn [forallb nth]. rewrite forallb_map. cbn [nth]. rewrite IH. reflexivity.
+Qed.
+
+(** a row is finite whatever the order its entries are listed in *)
+Lemma row_finite_permute perm (row : list fval) : is_perm (length row) perm = true ->
+  row_finite (permute perm row None) = row_finite row.
+Proof.
+  intros HP. unfold row_finite, permute. rewrite forallb_map.
+  rewrite (forallb_perm _ _ _ (is_perm_Permutation _ _ HP)). apply forallb_nth_seq.
+Qed.
+
+Lemma map_fget_permute perm row : map fget (permute perm row None) = permute perm (map fget row) 0.
+Proof.
+  unfold permute. rewrite map_map. apply map_ext. intros j.
+  change (nth j (map fget row) 0) with (nth j (map fget row) (fget None)). symmetry. apply map_nth.
+Qed.
+
+Lemma zipw_fsub_permute perm row obs : length row = length obs -> is_perm (length obs) perm = true ->
+  zipw fsub (permute perm row None) (permute perm obs None) = permute perm (zipw fsub row obs) None.
+Proof.
+  intros HL HP. unfold permute. rewrite zipw_map. apply map_ext_in. intros j Hj.
+  pose proof (is_perm_lt _ _ _ HP Hj) as Hlt.
+  symmetry. apply nth_zipw; [exact (eq_ind_r (fun m => (j < m)%nat) Hlt HL)|exact Hlt].
+Qed.
+
+(** [_input_variables] of the re-listed summaries = the re-listed columns of [_input_variables] *)
+Lemma input_variables_permute perm summ obs :
+  Forall (fun row => length row = length obs) summ -> is_perm (length obs) perm = true ->
+  input_variables (permute_cols perm summ) (permute perm obs None)
+  = permute_cols perm (input_variables summ obs).
+Proof.
+  intros HF HP. unfold input_variables, permute_cols. rewrite !map_map.
+  apply map_ext_in. intros row Hr. rewrite Forall_forall in HF. apply zipw_fsub_permute; auto.
+Qed.
+
+Lemma nth_map_default {A B} (f : A -> B) l : forall i da db, (i < length l)%nat ->
+  nth i (map f l) db = f (nth i l da).
+Proof. induction l as [|x l IH]; intros [|i] da db H; simpl in *; try lia; auto. apply IH; lia. Qed.
+
+Lemma nth_permute_cols perm X i : (i < length X)%nat ->
+  nth i (permute_cols perm X) [] = permute perm (nth i X []) None.
+Proof. intros Hi. unfold permute_cols. apply (nth_map_default (fun row => permute perm row None)), Hi. Qed.
+
+Lemma row_length_nth k (X : list (list fval)) i : Forall (fun row => length row = k) X ->
+  (i < length X)%nat -> length (nth i X []) = k.
+Proof. intros HF Hi. rewrite Forall_forall in HF. apply HF, nth_In, Hi. Qed.
+
+(** the same rows are used *)
+Theorem finite_indices_permute perm X theta k :
+  Forall (fun row => length row = k) X -> is_perm k perm = true -> length X = length theta ->
+  finite_indices (permute_cols perm X) theta = finite_indices X theta.
+Proof.
+  intros HF HP HL. unfold finite_indices. apply filter_ext_in. intros i Hi. apply in_seq in Hi.
+  unfold good_row. f_equal. rewrite nth_permute_cols by lia.
+  apply row_finite_permute. rewrite (row_length_nth k) by (auto; lia). exact HP.
+Qed.
+
+Lemma Forall2_map_same {A B} (R : B -> B -> Prop) (f g : A -> B) idx :
+  (forall i, In i idx -> R (f i) (g i)) -> Forall2 R (map f idx) (map g idx).
+Proof.
+  induction idx as [|i idx IH]; intros H; simpl; constructor.
+  - apply H; left; reflexivity.
+  - apply IH. intros j Hj. apply H; right; exact Hj.
+Qed.
+
+(** ... and every adjusted value is the same *)
+Theorem adjust_param_permute perm X theta b k :
+  Forall (fun row => length row = k) X -> length b = k -> is_perm k perm = true ->
+  length X = length theta ->
+  Forall2 Qeq (adjust_param (permute_cols perm X) theta (permute perm b 0)) (adjust_param X theta b).
+Proof.
+  intros HF Hb HP HL.
+  rewrite !adjust_param_spec by (auto; unfold permute_cols; rewrite map_length; auto).
+  rewrite (finite_indices_permute perm X theta k) by auto.
+  apply Forall2_map_same. intros i Hi.
+  unfold finite_indices in Hi. apply filter_In in Hi. destruct Hi as [Hi _]. apply in_seq in Hi.
+  rewrite nth_permute_cols by lia. rewrite map_fget_permute, !adj1_formula.
+  rewrite dot_permute; [reflexivity| |].
+  - rewrite map_length, (row_length_nth k) by (auto; lia). exact HP.
+  - rewrite map_length, (row_length_nth k) by (auto; lia). exact Hb.
+Qed.
+
+(** listing the summaries (simulated and observed alike) in another order, with the slope re-listed
+    accordingly, returns the same adjusted values for the same rows *)
+Theorem listing_invariant perm summ obs theta b :
+  Forall (fun row => length row = length obs) summ -> length b = length obs ->
+  is_perm (length obs) perm = true -> length summ = length theta ->
+  Forall2 Qeq
+    (adjust_param (input_variables (permute_cols perm summ) (permute perm obs None)) theta (permute perm b 0))
+    (adjust_param (input_variables summ obs) theta b).
+Proof.
+  intros HF Hb HP HL. rewrite input_variables_permute by auto.
+  apply adjust_param_permute with (k := length obs); auto.
+  - unfold input_variables. rewrite Forall_forall in *. intros r Hr. apply in_map_iff in Hr.
+    destruct Hr as [row [<- Hrow]]. rewrite zipw_length, (HF row Hrow). apply Nat.min_id.
+  - unfold input_variables. rewrite map_length. exact HL.
+Qed.
+
+(** what the storage tags of a run mean: an integer-typed array holds integers, a bool array 0/1 *)
+Theorem storable_int_sound t v : t = I64 \/ t = I32 -> storable t v = true ->
+  exists (z : Z) (q : Q), v = Some q /\ q == inject_Z z.
+Proof.
+  intros Ht H. destruct v as [q|]; [|destruct Ht; subst; discriminate].
+  assert (Hq : is_int q = true) by (destruct Ht; subst; exact H).
+  exists (Qnum (Qred q)), q. split; [reflexivity|].
+  unfold is_int in Hq. apply Pos.eqb_eq in Hq.
+  transitivity (Qred q); [symmetry; apply Qred_correct|].
+  destruct (Qred q) as [n d]; simpl in *; subst d. reflexivity.
+Qed.
+
+Theorem storable_bool_sound v : storable B8 v = true -> exists q, v = Some q /\ (q == 0 \/ q == 1).
+Proof.
+  destruct v as [q|]; [|discriminate]. simpl. intros H. exists q. split; [reflexivity|].
+  apply orb_true_iff in H. destruct H as [H|H]; apply Qeq_bool_eq in H; auto.
+Qed.
+
+(** * (f) a model with prior weight zero gets probability zero, wherever it is listed *)
+Lemma scores_from_nth ms : forall inds up i m, nth_error ms i = Some m ->
+  exists cnt, nth i (scores_from ms inds up) 0 = score cnt m.
+Proof.
+  induction ms as [|m0 r IH]; intros inds up [|i] m H; simpl in H; try discriminate.
+  - inversion H; subst. eexists; reflexivity.
+  - simpl. apply IH, H.
+Qed.
+
+Theorem compare_zero_weight ms order p i m : compare_models ms order = Some p ->
+  nth_error ms i = Some m -> m_w m == 0 -> nth i p 0 == 0.
+Proof.
+  intros H Hi Hw.
+  assert (Hlt : (i < length ms)%nat) by (apply nth_error_Some; congruence).
+  destruct (compare_proportion ms order p H) as [_ [_ Hn]].
+  rewrite (Hn i Hlt). rewrite <- scores_counts.
+  destruct (scores_from_nth ms (firstn (n_min ms) order) 0%nat i m Hi) as [cnt ->].
+  unfold score. rewrite Qred_correct, Hw. unfold Qdiv. ring.
+Qed.
